@@ -21,6 +21,11 @@ Definition body_correct (gv : list Z) (body : stmt)
     exists c', run_body code pc body c = Some c' /\ WF gv c' /\
                (svals c', mem c') = spec (svals c) (mem c).
 
+(* what the interpreter has established before a memory opcode runs: the
+   accessed range lies inside the (already expanded) memory *)
+Definition mem_pre (n : Z) (k : nat) (st : list Z) (m : list N) : Prop :=
+  (k <= length st)%nat /\ hd 0 st + n <= Z.of_nat (length m) /\ Z.of_nat (length m) < tt63.
+
 (* ---- decomposition of the hypotheses ---------------------------------------- *)
 Ltac nd_hyps :=
   repeat match goal with
